@@ -357,6 +357,10 @@ class Interp:
         self.trace: list[str] = []
         self.unknown_reasons: list[str] = []
         self._seq_elem: SeqV | None = None
+        # strict mode: inside callees (constructors, properties) an undecided *equality of sizes* is
+        # taken to be False -- two different polynomials differ for some sizes -- and recorded
+        self.strict = False
+        self.strict_failures: list[str] = []
         from . import tensor_ops
 
         self.ops = tensor_ops
@@ -473,9 +477,28 @@ class Interp:
             raise PathLimit()
         return st.copy()
 
-    def branch(self, cond: V, st: State, node: ast.AST) -> Iterator[tuple[bool, State]]:
+    def _strict(self, t: BoolV, st: State, node: ast.AST, fr: "Frame | None") -> BoolV:
+        if not self.strict or fr is None or fr.depth < 1 or t.val is not None:
+            return t
+        eqs = [l for l in t.tlits if l[0] == "cmp" and l[2] == "=="]
+        neqs = [l for l in t.flits if l[0] == "cmp" and l[2] == "=="]
+        if eqs and len(eqs) == len(t.tlits):
+            bad = [l for l in eqs if st.decide(l[1], "==") is not True]
+            if bad:
+                self.strict_failures.append(f"{fr.fi.module.relpath}:{getattr(node, 'lineno', 0)} {fr.fi.qualname}: `{unparse(node)[:90]}` needs {st.norm(bad[0][1])!r} == 0, which fails for some sizes")
+                return FALSE
+            return TRUE
+        if neqs and len(neqs) == len(t.flits):
+            bad = [l for l in neqs if st.decide(l[1], "==") is not True]
+            if bad:
+                self.strict_failures.append(f"{fr.fi.module.relpath}:{getattr(node, 'lineno', 0)} {fr.fi.qualname}: `{unparse(node)[:90]}` holds for some sizes ({st.norm(bad[0][1])!r} != 0)")
+                return TRUE
+            return FALSE
+        return t
+
+    def branch(self, cond: V, st: State, node: ast.AST, fr: "Frame | None" = None) -> Iterator[tuple[bool, State]]:
         """the feasible truth values of ``cond`` with the state refined accordingly"""
-        t = self.truth(cond, st)
+        t = self._strict(self.truth(cond, st), st, node, fr)
         if t.val is True:
             yield True, st
             return
@@ -559,11 +582,11 @@ class Interp:
                     yield "fall", NONE, s3
         elif isinstance(s, ast.If):
             for cv, s2 in self.ev(s.test, st, fr):
-                for tv, s3 in self.branch(cv, s2, s.test):
+                for tv, s3 in self.branch(cv, s2, s.test, fr):
                     yield from self.block(s.body if tv else s.orelse, s3, fr)
         elif isinstance(s, ast.Assert):
             for cv, s2 in self.ev(s.test, st, fr):
-                t = self.truth(cv, s2)
+                t = self._strict(self.truth(cv, s2), s2, s.test, fr)
                 if t.val is False:
                     yield "raise", NONE, s2
                     continue
@@ -801,7 +824,7 @@ class Interp:
             yield from self.compare(e, st, fr)
         elif isinstance(e, ast.IfExp):
             for cv, s2 in self.ev(e.test, st, fr):
-                for tv, s3 in self.branch(cv, s2, e.test):
+                for tv, s3 in self.branch(cv, s2, e.test, fr):
                     yield from self.ev(e.body if tv else e.orelse, s3, fr)
         elif isinstance(e, ast.Call):
             yield from self.ev_call(e, st, fr)
@@ -844,7 +867,7 @@ class Interp:
             if last:
                 yield v, s2
                 continue
-            for tv, s3 in self.branch(v, s2, e.values[i]):
+            for tv, s3 in self.branch(v, s2, e.values[i], fr):
                 if isinstance(e.op, ast.And):
                     if tv:
                         yield from self.boolop(e, i + 1, s3, fr)
@@ -1029,6 +1052,8 @@ class Interp:
                 yield OpaqueV(attr), st
             elif attr in ("reset_parameters",):
                 yield BuiltinV("noop"), st
+            elif attr in ("ref", "copyref"):
+                yield BuiltinV("model.Parameter.ref", ov), st
             else:
                 yield self.unk(f"param attribute {attr}"), st
             return
@@ -1036,6 +1061,9 @@ class Interp:
             yield BuiltinV("semiring." + attr, ov), st
             return
         if isinstance(ov, ClassV):
+            if ov.cls is not None and ov.cls.qualname in MODELLED_CLASSES:
+                yield BuiltinV(f"model.{ov.cls.name}.{attr}"), st
+                return
             if ov.cls is not None:
                 fi = self.repo.lookup(ov.cls, attr)
                 if fi is not None:
@@ -1449,13 +1477,16 @@ def _as_lambda(fn: ast.FunctionDef) -> ast.Lambda:
     return lam
 
 
+# library classes modelled natively (their graph code is irrelevant to shapes)
+MODELLED_CLASSES = {"cirkit.symbolic.parameters.Parameter", "cirkit.symbolic.circuit.CircuitBlock"}
+
 PY_BUILTINS = {
     "len", "range", "tuple", "list", "zip", "enumerate", "reversed", "sum", "max", "min", "all", "any", "isinstance",
     "int", "float", "bool", "abs", "sorted", "map", "print", "getattr", "setattr", "hasattr", "type", "dict", "set",
     "str", "iter", "next", "ValueError", "TypeError", "NotImplementedError", "AssertionError", "IndexError", "KeyError",
-    "divmod", "round", "slice", "frozenset", "super", "id", "repr", "callable",
+    "divmod", "round", "slice", "frozenset", "super", "id", "repr", "callable", "complex", "bytes", "object",
 }
-EXT_ROOTS = {"torch", "numpy", "einops", "functools", "itertools", "math", "scipy", "typing", "collections", "abc", "operator"}
+EXT_ROOTS = {"torch", "numpy", "einops", "functools", "itertools", "math", "scipy", "typing", "typing_extensions", "collections", "abc", "operator"}
 EXT_ALIASES = {
     "torch.Tensor": "torch.Tensor",
     "torch.nn.functional": "torch.nn.functional",
